@@ -170,7 +170,7 @@ REGISTRY = {
         "assumptions": COMMON_ASSUMPTIONS,
     },
     "C10": {
-        "rules": [exponent.rule_linop_dtype, 
+        "rules": [exponent.rule_linop_dtype, dmrg.rule_sandwich_orientation,
             dmrg.rule_lockstep, dmrg.rule_mirror_blocks, registries.rule_dense_linop_agree,
             P(dmrg.rule_sweep_memory, sites=[("quimb.tensor.tn1d.dmrg", "DMRG.solve", ("sweep",), "canonize")]),
             P(optflow.rule_option_delivery, opts=("bra",), modules=("quimb.tensor.tn1d.core", "quimb.tensor.tensor_core", "quimb.tensor.tn2d.core"),
